@@ -14,13 +14,13 @@ namespace AsmjitVerif.CodeHolder
 open AsmjitVerif.Offset
 open AsmjitVerif.RefSpec
 
-private theorem arith4 (X k Y a : BitVec 64) : X + k + (Y - X + (a - k)) = Y + a := by
+theorem arith4 (X k Y a : BitVec 64) : X + k + (Y - X + (a - k)) = Y + a := by
   simp only [BitVec.sub_eq_add_neg]
   have h1 : X + k + (Y + -X + (a + -k)) = (X + -X) + (k + -k) + (Y + a) := by ac_rfl
   rw [h1, BitVec.add_right_neg, BitVec.add_right_neg]
   simp
 
-private theorem arith3 (X Y r : BitVec 64) : X + (Y - X + r) = Y + r := by
+theorem arith3 (X Y r : BitVec 64) : X + (Y - X + r) = Y + r := by
   simp only [BitVec.sub_eq_add_neg]
   have h1 : X + (Y + -X + r) = (X + -X) + (Y + r) := by ac_rfl
   rw [h1, BitVec.add_right_neg]
